@@ -48,6 +48,8 @@ pub struct GenCfg {
     pub p_empty_payload: u32,
     /// probability (percent) that a publish with properties carries a publisher topic alias
     pub p_pub_alias: u32,
+    /// percentage of QoS 1/2 publishes carrying the DUP flag
+    pub p_dup: u32,
     pub max_burst: usize,
     pub qos_weights: [u32; 3],
     pub small_limits: bool,
@@ -95,6 +97,7 @@ impl Default for GenCfg {
             p_unnotified: 25,
             p_empty_payload: 0,
             p_pub_alias: 0,
+            p_dup: 8,
             max_burst: 260,
             qos_weights: [3, 4, 2],
             small_limits: false,
@@ -198,9 +201,9 @@ fn publish_strategy(g: &GenCfg, n: usize) -> BoxedStrategy<Op> {
         pct(g.p_props),
         props_strategy(),
         pct(g.p_unnotified),
-        (pct(g.p_pub_alias), 1u16..4),
+        (pct(g.p_pub_alias), 1u16..4, pct(g.p_dup)),
     )
-        .prop_map(|(c, topic, qos, retain, size, empty, with_props, mut props, unnotified, (alias, a))| {
+        .prop_map(|(c, topic, qos, retain, size, empty, with_props, mut props, unnotified, (alias, a, dup))| {
             if alias {
                 props.topic_alias = Some(a);
             }
@@ -212,6 +215,7 @@ fn publish_strategy(g: &GenCfg, n: usize) -> BoxedStrategy<Op> {
                 size: if empty { 0 } else { size },
                 props: if with_props { Some(props) } else { None },
                 notify: !unnotified,
+                dup: dup && qos > 0,
             }
         })
         .boxed()
